@@ -646,12 +646,19 @@ func init() {
 	ops["remux.sdp"] = func(a []string) string {
 		var got []string
 		r := remux.NewRtmp2RtspRemuxer(func(c sdp.LogicContext) { got = append(got, hx(c.RawSdp)+" "+logicStr(c)) }, func(pkt rtprtcp.RtpPacket) {})
-		feed := func(typ uint8, p []byte) {
+		// one receive buffer reused and overwritten between messages, as a pull session does: the remuxer's
+		// documentation promises that it keeps no reference to msg memory
+		arena := make([]byte, 0, 4096)
+		feed := func(typ uint8, raw []byte) {
+			p := append(arena[:0], raw...)
 			var m base.RtmpMsg
 			m.Header.MsgTypeId = typ
 			m.Header.MsgLen = uint32(len(p))
 			m.Payload = p
 			r.FeedRtmpMsg(m)
+			for i := range p {
+				p[i] = 0x9a
+			}
 		}
 		if a[0] != "nil" {
 			feed(base.RtmpTypeIdVideo, unhx(a[0]))
